@@ -1,4 +1,6 @@
 """C19 - timestamps round-trip and are independent of content."""
+import random
+import vfx
 from props import hist, histprop
 
 CONFIGS = ["mem", "phys", "alt_mem", "alt_phys", "ovl_mm", "ovl_pp", "ovl_sub", "ovl_alt", "alt_alt"]
@@ -11,10 +13,52 @@ def project(kind, case, step, op, line):
     return histprop.abstract_errors(line)
 
 
+def corpus_cases():
+    """directed scripts: content changes of every kind (first write into an empty file, truncation, append, overwrite
+    while a handle is open, copy over) must leave explicitly set timestamps alone"""
+    rng = random.Random(19)
+    T1, T2, T3 = hist.TIMES[1], hist.TIMES[4], hist.TIMES[5]
+    cases = []
+    for kind in CONFIGS:
+        for variant in range(4):
+            c = vfx.Case("c19_direct_%s_%d" % (kind, variant))
+            g = hist.build_config(c, kind, rng)
+            c.cfg = g
+            t = g.target
+            f = vfx.ps(t, "f")
+            if variant == 0:      # empty file, stamp, first bytes arrive through an append handle
+                w = c.op("createfile", f); c.op("hdrop", w)
+                for k, v in (("setctime", T1), ("setmtime", T2), ("setatime", T3)):
+                    c.op(k, f, v)
+                c.op("metadata", f)
+                a = c.op("appendfile", f); c.op("hwrite", a, vfx.hexs(b"first bytes")); c.op("hflush", a)
+                c.op("metadata", f); c.op("hdrop", a); c.op("metadata", f)
+            elif variant == 1:    # stamp while the creating handle is still open, then write and drop
+                w = c.op("createfile", f)
+                c.op("setctime", f, T1); c.op("setatime", f, T3)
+                c.op("hwrite", w, vfx.hexs(b"abc")); c.op("hdrop", w); c.op("metadata", f)
+                c.op("setctime", f, T2)
+                a = c.op("appendfile", f); c.op("hwrite", a, vfx.hexs(b"def")); c.op("hdrop", a); c.op("metadata", f)
+            elif variant == 2:    # truncation by create_file over an existing stamped file
+                hist.write_file(c, t, "f", b"old content")
+                c.op("setctime", f, T1); c.op("setmtime", f, T2); c.op("setatime", f, T3); c.op("metadata", f)
+                w = c.op("createfile", f); c.op("metadata", f); c.op("hwrite", w, vfx.hexs(b"new")); c.op("hdrop", w)
+                c.op("metadata", f)
+            else:                 # directories and copies
+                c.op("createdir", vfx.ps(t, "d")); c.op("setctime", vfx.ps(t, "d"), T1); c.op("setmtime", vfx.ps(t, "d"), T2)
+                hist.write_file(c, t, "d/x", b"x"); c.op("metadata", vfx.ps(t, "d"))
+                c.op("setctime", vfx.ps(t, "d/x"), T3)
+                c.op("copyfile", vfx.ps(t, "d/x"), vfx.ps(t, "d/y")); c.op("metadata", vfx.ps(t, "d/x")); c.op("metadata", vfx.ps(t, "d/y"))
+                c.op("removefile", vfx.ps(t, "d/x")); c.op("metadata", vfx.ps(t, "d"))
+            c.op("snap", t)
+            cases.append(c)
+    return cases
+
+
 MIX = ["settime"] * 8 + ["createfile"] * 3 + ["append"] * 3 + ["createdir"] * 2 + ["metadata"] * 2 + ["copyfile", "removefile"]
 P = histprop.HistProp(
     "C19", CONFIGS, typed=True, mix=MIX, with_times=True, project=project, quick_cases=8, thorough_cases=100,
-    nops=(10, 20), allow_big=False,
+    nops=(10, 20), allow_big=False, corpus_cases=corpus_cases,
     rule=("histories mixing set_creation/modification/access_time (values: epoch, +-10^9 s, sub-second parts, 1 ns, "
           "year 2100) with write sessions, appends and copies on files and directories; every metadata record of every "
           "snapshot is compared including its three timestamps (explicitly set values exactly, values of now() as 'auto'); "
